@@ -9,6 +9,7 @@ import (
 	"verif/internal/model"
 	"verif/internal/ref"
 	"verif/internal/run"
+	"verif/internal/zoo"
 )
 
 func init() {
@@ -18,7 +19,9 @@ func init() {
 // c06BadLeaf returns a value that cannot be represented in the named built-in leaf type.
 func c06BadLeaf(name string) (interface{}, bool) {
 	switch name {
-	case "Int", "Int64", "Float", "Float64", "Boolean":
+	case "Float":
+		return 1e300, true // finite, but not representable as the 32-bit Float
+	case "Int", "Int64", "Float64", "Boolean":
 		return "not-a-" + name, true
 	case "Time":
 		return "not-a-time", true
@@ -204,6 +207,47 @@ func runC06(c *run.Ctx) {
 				continue
 			}
 			check("coerce-out", nil, g2, h2, true)
+		}
+	}
+	// reflected methods with a (value, error) signature: the failure channel of the reflection strategy
+	for zi, zc := range []struct {
+		text string
+		key  string
+	}{{`{ name flag(on: false) count }`, "flag"}, {`{ fail name }`, "fail"}, {`{ self { f: flag(on: false) } name }`, "f"}, {`{ items { id } flag(on: true) fail }`, "fail"}} {
+		root, _, err := zoo.NewRoot()
+		if err != nil {
+			break
+		}
+		res := root.ResolveString(zc.text, "", nil)
+		sites++
+		c.Eval("zoo-method-error|"+zc.text, true)
+		c.Bucket("fault_kind", "reflected-method-error")
+		data := ref.Canon(res["data"])
+		var holder interface{} = data
+		if zi == 2 {
+			m, _ := data.(map[string]interface{})
+			holder = m["self"]
+		}
+		hm, _ := holder.(map[string]interface{})
+		val, has := hm[zc.key]
+		nerr := 0
+		if es, isL := res["errors"].([]interface{}); isL {
+			for _, e := range es {
+				em, _ := e.(map[string]interface{})
+				if p, _ := em["path"].([]interface{}); len(p) > 0 && p[len(p)-1] == zc.key {
+					nerr++
+				}
+			}
+		}
+		switch {
+		case nerr != 1:
+			c.Violation("c06-reflected-method", map[string]interface{}{"document": zc.text, "diag": fmt.Sprintf("%d error entries for the failed method field %s, expected 1", nerr, zc.key), "response": fmt.Sprint(res)})
+		case has && val != nil:
+			if c.Open("K-C06-method-value-kept") && val == "" {
+				c.Known("K-C06-method-value-kept", map[string]interface{}{"document": zc.text, "value_in_data": val})
+			} else {
+				c.Violation("c06-reflected-method", map[string]interface{}{"document": zc.text, "diag": fmt.Sprintf("failed position %s holds %v instead of null", zc.key, val), "response": fmt.Sprint(res)})
+			}
 		}
 	}
 	c.MinNontriv = sites / 10
